@@ -7,17 +7,9 @@ TECH = "bounded symbolic execution of the real Rust code (Kani 0.68 / CBMC 6.11,
 
 CLAIMS = {
     "C01": {
-        "text": "Bounded model checking of the real receive path in two layers. Layer 1 (transport half): the real ReadConnection::read_from_socket "
-                "from every concrete (buffer length, read cursor) state of the small-constant build, with symbolic buffered bytes and one symbolic transport "
-                "step (kind, chunk length 1..=8, chunk bytes): bytes are appended in order, none lost or duplicated, the call returns exactly at a chunk ending "
-                "in NUL, plants the sentinel, grows by one step when exactly full, and leaves a state of the same family on error/pending - the inductive step "
-                "for any number of reads and any partition of the stream. Layer 2 (frame half): the real read_message on a pre-loaded buffer holding two frames "
-                "of arbitrary bytes: each receive yields that frame's own verdict (reference JSON-u8 recogniser), consumes exactly that frame, and the cursors "
-                "reset after the last one.",
-        "design_ref": "DESIGN.md section 3 (C01) and section 12 (what changed in the build phase)",
-        "note": "Small-constant build (BUFFER_SIZE=8, MAX_BUFFER_SIZE=32). Layer 2 decodes `u8` only (frames <= 3 bytes) and starts from a pre-loaded buffer; "
-                "the composition of the two layers and the public receive_call/receive_reply wrappers (nested coroutines, not encodable - DESIGN 12) are argued in prose, not solved. "
-                "Stubs: fmt, tracing level, serde_json error positions, memchr loop crate. Scripted ReadHalf honours the trait contract.",
+        "text": 'Bounded model checking of the real receive path as inductive steps. Transport half: the real ReadConnection::read_from_socket from every concrete (buffer length, read cursor) state of the small-constant build, with symbolic buffered bytes and one symbolic transport step (kind, chunk length 1..=8, chunk bytes): bytes are appended in order, none lost or duplicated, the call returns exactly at a chunk ending in NUL, plants the sentinel, grows by one step when exactly full, and leaves a state of the same family on error/pending. Frame half: the real read_message on a buffered frame of n arbitrary non-NUL bytes at a concrete message cursor, last frame or followed by another one (recv_step), and from a fresh connection through one transport burst (recv_fresh): the receive yields the verdict of exactly that frame (a frame that fails to decode consumes exactly itself), moves the cursor exactly past it or resets both cursors after the last frame, leaves every buffered byte intact and serves buffered frames without touching the transport.',
+        "design_ref": 'DESIGN.md section 3 (C01), 12 and 13',
+        "note": "Small-constant build (BUFFER_SIZE=8, MAX_BUFFER_SIZE=32). The frame half uses a decoder that takes nothing from the document (verdict = the slice handed to serde_json::from_slice is all JSON whitespace; any other byte is a decode error), because serde_json's value parsers do not fit the solver (DESIGN 12.6): what is decided is zlink's framing (which slice is decoded, where the cursors go), not JSON decoding of requested shapes. Histories of receives are covered by induction over steps (prose); receive_call/receive_reply are thin wrappers over read_message and are not themselves in the formula. Stubs: fmt, tracing level, serde_json error positions, memchr loop crate. Scripted read halves honour the ReadHalf contract.",
     },
     "C02": {
         "text": "Bounded model checking of the real WriteConnection::enqueue / enqueue_call / flush / send_* from concrete (buffer length, fill position) states of the "
@@ -49,29 +41,19 @@ CLAIMS = {
                 "(needs receive_reply on text). Known findings: `parameters: {}` rejected for field-less derived errors, service errors and GetInfo.",
     },
     "C06": {
-        "text": "Bounded model checking of the real ReplyStream::poll_next with a symbolic number of owed replies (0..=3) and a symbolic script of receive outcomes (continuing reply, "
-                "final reply, method error, transport error; receive futures optionally pending): a receive is started only while a reply is owed, items come out in order, the owed "
-                "count drops exactly on final replies and method errors, the stream ends exactly when nothing is owed or after a transport error and stays ended. Chain bookkeeping "
-                "(reply_count = number of non-oneway calls, one write, documents in order) is checked on the real chain_call/append with symbolic flags.",
-        "design_ref": "DESIGN.md section 3 (C06)",
-        "note": "The stream is driven through the public doc-hidden ReplyStream::new with a harness receive closure, so Chain::send's own closure (receive_reply on JSON text) is not in the "
-                "formula; a change that alters how Chain::send configures the stream is only seen by chain_counts if it shows in the counts (seed C06-B is missed, see DESIGN 11).",
+        "text": "Bounded model checking of the real ReplyStream::poll_next with a symbolic number of owed replies (0..=3) and a symbolic script of receive outcomes (continuing reply, final reply, method error, transport error; receive futures optionally pending): a receive is started only while a reply is owed, items come out in order, the owed count drops exactly on final replies and method errors, the stream ends exactly when nothing is owed or after a transport error and stays ended, and the stream itself never touches frames of later exchanges already buffered in the connection. Chain bookkeeping on the real chain_call/append/send for chains of 1..=3 calls (flags of the last call symbolic, of the earlier ones fixed per instance): exactly the calls' documents are enqueued in order, one reply is expected per call that is not oneway, send() completes with one write carrying exactly those bytes.",
+        "design_ref": 'DESIGN.md section 3 (C06), 12 and 13',
+        "note": "The stream is driven through the public doc-hidden ReplyStream::new with a harness receive function, so Chain::send's own closure (receive_reply on JSON text) is not in the formula: that Chain::send hands its reply count and receive function to the stream unchanged is read from the code, not solved, and a change there is missed (seeds C06-B, C06-C; DESIGN 11). Chain harnesses use the 128/128 build.",
     },
     "C07": {
-        "text": "Bounded model checking of cancel safety at the only suspension point of a receive: the real read_from_socket from every concrete state of the small build with a symbolic "
-                "transport step, where at every Pending a symbolic choice drops the future and a new receive is started: final buffer content, cursors and result equal the reference "
-                "model of an uninterrupted receive. A relational variant runs two real connections on the same script, one cancelled at symbolic points, one not, and compares them.",
-        "design_ref": "DESIGN.md section 3 (C07)",
-        "note": "One transport step per call in the quick tier (inductive step), two in the thorough tier where it finishes; small-constant build; the decode step after the read is synchronous "
-                "and has no suspension point. The server loop that relies on this guarantee is not encoded.",
+        "text": 'Bounded model checking of cancel safety of a receive. At its only suspension point: the real read_from_socket from every concrete state of the small build with a symbolic transport step, where at every Pending a symbolic choice drops the future and a new receive is started: final buffer content, cursors and result equal the reference model of an uninterrupted receive (a relational variant runs two real connections on the same script, one cancelled, one not). At the level of read_message: from the state an abandoned receive leaves behind (arbitrary buffered bytes, possibly whole frames, last byte not NUL) a new receive takes in the rest of the burst, yields the first complete frame and loses nothing (recv_resume).',
+        "design_ref": 'DESIGN.md section 3 (C07), 12 and 13',
+        "note": "One transport step per call (inductive step); small-constant build; read_message's decode step after the read is synchronous and has no suspension point; recv_resume uses the decoder that consumes nothing (see C01). The server loop that relies on this guarantee is not encoded.",
     },
     "C12": {
-        "text": "Bounded model checking of frames produced by the real #[proxy] expansion of a fixed 9-method corpus trait (no-arg, scalars, &str, Option, renamed method, renamed parameter, "
-                "more, oneway, digit in name) for symbolic argument values: the chain_<m>() and chain-extension forms enqueue byte for byte the call the declaration denotes (method path, "
-                "wire names, omitted None, flags).",
-        "design_ref": "DESIGN.md section 3 (C12)",
-        "note": "Frame-equality part only, on the chain forms (sync enqueue + one flush). The plain async method is a 4-deep coroutine nest that CBMC cannot encode (DESIGN 12), so its frame is "
-                "compared natively only (selftest), not by the solver. Quantifier over traits is replaced by a fixed corpus. Known findings: chain forms ignore parameter renames, send None as null, drop `more`.",
+        "text": 'Bounded model checking of frames produced by the real #[proxy] expansion of a fixed 10-method corpus trait (no-arg, scalars, &str, Option, renamed method, renamed parameter, renamed Option parameter, more, oneway, digit in name) for symbolic argument values: the chain_<m>() and chain-extension forms enqueue byte for byte the call the declaration denotes (method path, wire names, omitted None, flags).',
+        "design_ref": 'DESIGN.md section 3 (C12), 12 and 13',
+        "note": 'Frame-equality part only, on the chain forms (synchronous enqueue). The plain async method (a 4-deep coroutine nest) is in the thorough tier where it finishes and is otherwise compared natively only (selftest). The quantifier over traits is replaced by a fixed corpus, so a macro change that only affects shapes outside the corpus is missed. Known findings: chain forms ignore parameter renames, send None as null, drop `more`.',
     },
     "C13": {
         "text": "Bounded model checking of the real IDL parser per grammar production against reference recognisers written from the Varlink grammar: interface_name, field_name, type_name and "
